@@ -101,7 +101,7 @@ def run(tape: Tape) -> Outcome:
     size = 2 + tape.draw(4)
     envcls = (0, 0, 0, 0, 0, 1, 1, 2)[tape.draw(8, "m")]
     out.count("env_class_" + ("Environment", "NativeEnvironment", "SandboxedEnvironment")[envcls])
-    P = Gen(tape, is_async=True, loopcontrols=lc, size=size, native=envcls == 1).generate()
+    P = Gen(tape, is_async=True, loopcontrols=lc, size=size, native=envcls == 1, env_globals=True).generate()
     entry = P.entry_points[tape.draw(len(P.entry_points))]
     mode = tape.draw(len(MODES), "f")
     api = tape.draw(2, "f")
@@ -122,6 +122,30 @@ def run(tape: Tape) -> Outcome:
         loader=jinja2.DictLoader(P.templates), enable_async=True, autoescape=AE_MODES[ae],
         extensions=["jinja2.ext.loopcontrols"] if lc else [], bytecode_cache=CodeMemo(cfg_key),
     )
+
+    async def gf(x=0):
+        events.ev("gcall")
+        await A.gate(tape)
+        try:
+            return int(x) + 2
+        except Exception:
+            return 2
+
+    @jinja2.pass_context
+    async def gcx(ctx, name):
+        events.ev("gcall")
+        await A.gate(tape)
+        return ctx.resolve(name)
+
+    class GStr:
+        def __str__(self) -> str:
+            events.ev("str")
+            return "G!"
+
+        def __repr__(self) -> str:
+            return "GStr()"
+
+    env.globals.update(gf=gf, gcx=gcx, gso=GStr(), gn=3, gd={"k1": 1, "k2": [2]})
 
     policy = A.install_policy()
     policy.created.clear()
